@@ -15,7 +15,8 @@ META = dict(
           "doUpdate/doUpdates (assign only pi[row(s)]), and a sweep lemma over these contracts on the real sweep text "
           "(bounded stand-in: <=2 constraints of each kind). Symbolic products/quotients/sqrt are abstracted by uninterpreted "
           "functions + trusted IEEE sign/monotonicity lemmas; the cone inequality itself is a real-arithmetic lemma (z3) on the "
-          "contract's scale expression. PLUS solver, convergence and [A+D]pi=rhs are not decided."),
+          "contract's scale expression. PLUS solver, convergence and [A+D]pi=rhs are not decided. "
+          "PLUS solver (part_c44_plus): history independence only - every read of a mutable work member in solve()/solveBilateral() and the helpers is preceded by a defining write of the same call (sliced real code, ghost-index container model)."),
     note=("Trusted: CBMC 6.11 + MiniSat, z3, extractor rule tables; assumed: vf_sq/vf_mul/vf_div/vf_sqrt_ratio/vf_scale lemmas, "
           "abstract views of Vector/Matrix/Array_ and of the RT structs, disjoint index sets, |IV|<=3."),
     technique="CBMC function contracts (dfcc) on mechanically extracted real code + uninterpreted-function abstraction of float products + z3 real lemma",
@@ -197,6 +198,16 @@ def main(ctx):
                                   bounded="real products, integer-valued pi entries in [-3,3], mu in {0..3}, fixed index layout IN={0,1,2} IF={3,4,5}, sizes 0..3"))
     jobs.append(lambda: cone_lemma_z3(ctx))
     parallel(jobs)
+    # PLUS solver: definite initialisation / history independence of the mutable work members (checks/part_c44_plus.py)
+    plus_replayer = None
+    try:
+        import importlib
+        plus = importlib.import_module("part_c44_plus")
+        plus_replayer = plus.run(ctx)
+    except ImportError:
+        ctx.not_decided.append("PLUS solver history independence (part_c44_plus module not present)")
+    except ExtractionError as e:
+        ctx.undecide("extraction (PLUS definite initialisation): %s" % e)
 
     ctx.trust("cbmc/goto-cc/goto-instrument 6.11.0 (C front end), MiniSat; z3 for the real-arithmetic cone lemma")
     ctx.trust("tools/extract.py rule tables (extraction_report.json lists every rewrite and dropped token)")
@@ -211,7 +222,7 @@ def main(ctx):
     ctx.assume("sweep lemma: callee behaviour = contract models (assert requires; havoc assigns; assume ensures) in specs/C44/pgs_sweep.h, PRE/POST text shared with the enforced contracts; "
                "doRowSum/doRowSums assumed read-only except `sums` (const reference parameters); Gauss-Seidel updates ASSUMED to stay <=1e150 in magnitude (well-posed subproblem); "
                "index sets of different constraints disjoint (partition stated above PGSImpulseSolver::solve); abstract views of the RT structs (fields used by the sweep only)")
-    ctx.not_decided += ["PLUS solver (PLUSImpulseSolver.cpp: active-set logic) - not covered",
+    ctx.not_decided += ["PLUS solver (PLUSImpulseSolver.cpp: active-set logic, numerical result) - not covered beyond the history-independence units plus.*",
                         "convergence of the PGS iteration, and [A+D]*pi = rhs for unconditional rows (linear solve)",
                         "constraint-space velocities consistent with the reported condition (verr update after the loop: matrix-vector products)",
                         "boundVector/boundFriction value clause 'Rolling <=> sum of squares <= limit' for arbitrary doubles: decided only on the small-integer stand-in (recomputing float sums inside a contract needs FP-adder equivalence, which SAT does not finish)",
@@ -220,7 +231,7 @@ def main(ctx):
     ctx.explanation = ("Proved for all inputs (bit-precise): boundUnilateral never-pull/identity/condition code; boundScalar clamp/nearest bound/condition code; "
                        "boundVector/boundFriction frame, Rolling=>unchanged, scale computed once under checked 0<=L2<norm2, every component multiplied once by that scale, no growth/sign flip, zero vector never scaled; "
                        "doUpdate/doUpdates frame. Bounded stand-ins: exact condition code on small integers; sweep lemma S1-S5 over contract models (<=2 contacts). Real-arithmetic lemma: scaled vector lies on the cone.")
-    return ctx.finish(replayer=lambda ob: replay(ctx, ob))
+    return ctx.finish(replayer=lambda ob: (plus_replayer(ob) if (plus_replayer is not None and ob.unit.startswith("plus.")) else replay(ctx, ob)))
 
 
 def cone_lemma_z3(ctx):
